@@ -77,7 +77,8 @@ def objects(env, tpl):
     return out
 
 def strategy_c(env):
-    return st.fixed_dictionaries(dict(cfg=st.sampled_from(CSUM_CONFIGS), recipe=st.integers(0, len(hyp.RECIPES) - 1), type=st.sampled_from(TYPES), obj=st.integers(0, 100000), stride=st.sampled_from([1, 1, 3, 7, 16, 61, 128, 509]), r=st.integers(0, 100000), bit=st.integers(0, 7)))
+    # objects whose verification depends on their position (group, offset inside the inode table / scan buffer) need several groups with in-use inodes: those configurations are drawn more often
+    return st.fixed_dictionaries(dict(cfg=st.sampled_from(CSUM_CONFIGS + [c for c in CSUM_CONFIGS if c in ('ext4-1k-3groups-oddtable', 'ext4-1k-manygroups', 'ext4-2k-groups')] * 2), recipe=st.integers(0, len(hyp.RECIPES) - 1), type=st.sampled_from(TYPES + ['inode']), obj=st.integers(0, 100000), stride=st.sampled_from([1, 1, 3, 7, 16, 61, 128, 509]), r=st.integers(0, 100000), bit=st.integers(0, 7)))
 
 def body_c(case, env):
     fp = core.stable_hash(case); classes = ['c:type:' + case['type']]
@@ -85,14 +86,18 @@ def body_c(case, env):
     if tpl is None: return (None, fp, False, None, classes + ['skip:template'])
     objs = objects(env, tpl)[case['type']]
     if not objs: return (None, fp, False, None, classes + ['skip:no-such-object'])
-    label, off, ln, pargs = objs[case['obj'] % len(objs)]
-    stride = case['stride']; positions = list(range(case['r'] % stride, ln, stride))
-    if len(positions) > 48:
-        s0 = case['r'] % (len(positions) - 47); positions = positions[s0:s0 + 48]
+    # up to 4 objects of the type, spread evenly over the object list (for inodes: over the whole inode number range, i.e. over the groups), 12 byte positions each
+    nobj = min(4, len(objs)); chosen = [objs[(case['obj'] + k * len(objs) // nobj) % len(objs)] for k in range(nobj)]
+    stride = case['stride']; plan = []
+    for label, off, ln, pargs in chosen:
+        positions = list(range(case['r'] % stride, ln, stride)); per = 48 // nobj
+        if len(positions) > per:
+            s0 = case['r'] % (len(positions) - per + 1); positions = positions[s0:s0 + per]
+        plan += [(label, off, ln, pargs, p) for p in positions]
     t = env['asan']; img = os.path.join(env['dir'], 'c14.img'); shutil.copyfile(tpl, img)
-    nflips = 0; misses = []
+    nflips = 0; misses = []; positions = [x[4] for x in plan]
     with open(img, 'r+b') as f:
-        for p in positions:
+        for label, off, ln, pargs, p in plan:
             f.seek(off + p); old = f.read(1); f.seek(off + p); f.write(bytes([old[0] ^ (1 << case['bit'])])); f.flush()
             q = t.fsck(img, '-fn'); nflips += 1
             lib = None
@@ -104,13 +109,14 @@ def body_c(case, env):
                 # runaway problem listing (e.g. a directory whose size became astronomically large): e2fsck was rejecting the content; bounded-time behaviour is C06's matter
                 classes.append('c:e2fsck-output-capped'); f.seek(off + p); f.write(old); f.flush(); continue
             if q.rc is None or q.rc >= 90: return (dict(kind='e2fsck-crash-or-sanitizer', object=label, byte=p, cfg=case['cfg'], rc=q.rc, sig=q.sig, out=q.out[-400:]), fp, True, None, classes)
-            if q.rc == 0: misses.append(dict(who='e2fsck -fn exits 0', byte=p, says=tool.fsck_lines(q.out, 3)))
-            if lib is not None and lib.startswith('RET 0 '): misses.append(dict(who='library accepts (%s)' % ' '.join(pargs), byte=p))
+            if q.rc == 0: misses.append(dict(who='e2fsck -fn exits 0', byte=p, object=label, says=tool.fsck_lines(q.out, 3)))
+            if lib is not None and lib.startswith('RET 0 '): misses.append(dict(who='library accepts (%s)' % ' '.join(pargs), byte=p, object=label))
             f.seek(off + p); f.write(old); f.flush()
             if len(misses) >= 4: break
     classes.extend(['c:flip'] * nflips)
     if misses:
-        who = sorted(set(m['who'].split(' (')[0] for m in misses))
+        label = misses[0]['object']; ln = [x[2] for x in plan if x[0] == label][0]
+        who = sorted(set(m['who'].split(' (')[0] for m in misses if m['object'] == label)); misses = [m for m in misses if m['object'] == label]
         return (dict(kind='altered-byte-accepted', type=case['type'], object=label.split(' ')[0] + ' ' + label.split(' ')[1] if ' ' in label else label, full_object=label, cfg=case['cfg'], who=who, bit=case['bit'], covered_len=ln, misses=misses[:4]), fp, True, None, classes)
     return (None, fp, nflips > 0, dict(sub='c', cfg=case['cfg'], object=label, covered_len=ln, bytes_flipped=positions[:6] + ['...'] if len(positions) > 6 else positions, bit=case['bit']), classes)
 
@@ -195,7 +201,11 @@ def body_b(case, env):
                 free = [b_ for b_ in range(ck0.fs.blocks - 1, ck0.fs.first_data, -1) if b_ not in ck0.fixed and b_ not in ck0.owners][:4]     # the logged images must land on free blocks
             except Exception: continue
             if len(free) < 4: continue
-            tp.dbg(img, ['jo', 'jw -b %d,%d /dev/zero' % (free[0], free[1]), 'jw -r %d' % free[2], 'jc', 'jo', 'jw -b %d %s' % (free[3], os.path.join(env['blobs'], 'small')), 'jc'], write=True); done.append('debugfs journal transactions'); rewrote = True
+            # one logged block starts with the jbd2 magic number and therefore has to be escaped in the log (its tag checksum covers the escaped bytes)
+            mg = os.path.join(env['blobs'], 'c14-jbd2-magic-%d' % bs)
+            if not os.path.exists(mg):
+                with open(mg, 'wb') as fh: fh.write((jbd2.MAGICB + bytes(range(1, 253))) * (bs // 256))
+            tp.dbg(img, ['jo -c', 'jw -b %d /dev/zero' % free[0], 'jw -b %d %s' % (free[1], mg), 'jw -r %d' % free[2], 'jc', 'jo -c', 'jw -b %d %s' % (free[3], os.path.join(env['blobs'], 'small')), 'jc'], write=True); done.append('debugfs journal transactions with jo -c (one escaped block)'); rewrote = True
     jf = journal_csum_findings(img)
     if jf: return (dict(kind='journal-checksum-does-not-verify', cfg=case['cfg'], history=done, findings=jf[:5]), fp, True, None, classes)
     if tool.sb_fields(img)['incompat'] & 4:
